@@ -5,16 +5,19 @@
    Line breaks, alignment and blanks (layout) are NOT in the model: explored by checks/c20.py. *)
 From Coq Require Import List ZArith Bool.
 Import ListNotations.
-From V Require Import Base.Prelude Gen.Tokens Model.Expr Proofs.ExprFuel Proofs.Expr.
+From V Require Import Base.Prelude Gen.Tokens Model.Expr Proofs.ExprFuel Proofs.Expr Proofs.ExprImage Proofs.ExprTotal.
 Open Scope Z_scope.
+
+(* KERNEL STATEMENT (proved in full): for every token list the model parser accepts (first pass: parse ts = e, output pr e),
+   the second pass accepts the first output and prints the same tokens again *)
+Theorem C20_second_pass_same_tokens : forall ts e, parse ts = ROk (PE e) [] ->
+  exists e', parse (pr e) = ROk (PE e') [] /\ pr e' = pr e.
+Proof. intros ts e H. destruct (parsed_roundtrip_closed ts e H) as (A & B & _). exists (dedup e). auto. Qed.
 
 (* print (parse (print e)) = print e, for every tree whose operand positions are readable *)
 Theorem C20_print_parse_print_partial : forall e,
-  validb e = true -> nolamb e = true -> posokb e = true ->
-  exists fuel e', parse_expr fuel (pr e) = ROk (PE e') [] /\ pr e' = pr e.
-Proof.
-  intros e V L K. destruct (roundtrip e V L K) as [f Hf]. exists f, (norm e). split; auto. apply (pr_norm (sz e)); auto.
-Qed.
+  validb e = true -> posokb e = true -> exists e', parse (pr e) = ROk (PE e') [] /\ pr e' = pr e.
+Proof. intros e V K. exists (norm e). split; [now apply roundtrip_closed|apply (pr_norm (sz e)); auto]. Qed.
 
 (* the parenthesised tree is a fixed point: nothing more is inserted the second time *)
 Theorem C20_norm_idempotent : forall e, validb e = true -> pr (norm (norm e)) = pr (norm e) /\ pr (norm e) = pr e.
@@ -25,5 +28,6 @@ Example C20_example : validb ex = true /\ posokb ex = true /\ norm ex <> ex /\ p
   parse (pr (norm ex)) = ROk (PE (norm ex)) [].
 Proof. vm_compute. repeat split; try reflexivity. discriminate. Qed.
 
+Print Assumptions C20_second_pass_same_tokens.
 Print Assumptions C20_print_parse_print_partial.
 Print Assumptions C20_norm_idempotent.
